@@ -447,6 +447,20 @@ def body(ctx):
         finish(ctx, reqs, impls, cases, tags, cmpmode)
         return
 
+    # ---------------- 0. corpus: minimised past failures, replayed first
+    import json
+    for f in sorted((C.ROOT / "corpus" / PID).glob("*.json")):
+        c = json.loads(f.read_text()).get("case", {})
+        if c.get("fn") == "aggregate":
+            do_aggregate(list(c["aggindex"]), [NAN if v is None else float(v) for v in c["inputs"]],
+                         int(c["operator"]), int(c["maxnan"]), "corpus")
+        elif c.get("fn") == "flathomogen":
+            do_flathomogen(list(c["aggindex"]), [NAN if v is None else float(v) for v in c["inputs"]],
+                           int(c["maxnan"]), "corpus")
+        elif c.get("fn") == "monthly2daily":
+            m2d_case(ctx, real, add, int(c["year"]), int(c["month"]), [float(v) for v in c["values"]],
+                     c["interpolation"], float(c.get("minthreshold", 0.0)))
+
     # ---------------- 1. hand-written branch cases
     hand = [
         ([5], [1.5]), ([5], [NAN]), ([5], [-2.0]), ([5], [-0.0]),
